@@ -16,26 +16,26 @@ def const(tree, name, default=''):
 
 # clauses added to a property's check after the seeded waves (the modules' EXPLANATION constants describe the original rules)
 MORE = {
- 'C02': '(R02.5) no evaluation kernel takes a parameter value as C float; (R02.6 = R07.9) a buffer receiving computed derivatives is floating point whatever the coefficient dtype.',
+ 'C02': '(R02.5) no evaluation kernel takes a parameter value as C float; (R02.6 = R07.9) a buffer receiving computed derivatives is floating point whatever the coefficient dtype. (R02.8 = R07.1) the scattered-point evaluators pair knot vector d with coordinate sdim-1-d.',
  'C01': '(R01.11 = R08.4) every array generated for an updatable input is refreshed by update().',
- 'C09': '(R09.9 = R17.8) f is evaluated at the mapped points iff f_physical.',
+ 'C09': '(R09.9 = R17.8) f is evaluated at the mapped points iff f_physical. (R09.11 = R01.4) the Gauss node count is the maximum degree over all directions + 1; (R09.12) X_fast() without a geometry delegates to X(); (R09.13) inner_products and integrate both pad |det J| with trailing unit axes before multiplying it onto possibly vector-valued data.',
  'C06': '(R06.G/G12) a double sum restricted to a triangle with doubled off-diagonal weight requires a symmetric summand.',
  'C05': '(R05.G/G2) a memo keyed by attributes of its inputs (degree, dof count) while the value is computed from the whole knot vectors. (R05.7) the level ranges of prolongate_to run to the finest level of the fine space and do not depend on the disparity. (R05.8) the inverse one-level truncations in the THB virtual-hierarchy prolongators are composed in the order of hb_to_thb (known finding on the current tree). (R05.9) no in-place write into a matrix a helper may have returned uncopied; (R05.10) prolongation keeps the 2-D shape for a one-function source basis.',
- 'C04': '(R04.G/G11) indices are scaled between levels by 2**(level difference), never by 2*(level difference).',
- 'C03': '(R03.11 = R04.6) the disparity the level-wise assembly relies on is established by the marking closure started on every level. (R03.12) the level spread assemble_matrix searches is justified by every marking mode refine() admits (T-admissible marking bounds the truncated functions only). (R03.13) function_grandchildren recurses on the children; interlevel rows are assembled regardless of activity; (R03.14) indices and values of a level block come from one COO view; (R03.15) level assemblers receive inputs and parameters.',
- 'C07': "(R07.4) component order of the linearised Hessian; the caller's component index is never applied to the weight column; (R07.5) the fixed coordinate of a boundary function is inserted at position len(x) - axis. (R07.2) views handed out by a method of self through a tuple result are tracked to in-place writes in the caller; (R07.6) the corner weights of every circular arc depend on the angle. (R07.8) boundary() honours a support override in every direction; (R07.9) the Hessian buffer is floating point.",
- 'C08': "(R08.4) update() iterates the variable sequence itself; (R08.6 = R01.7) bounding-box offsets in Gauss-node units of the common node count. (R08.4) the constants array is allocated by the generated __init__ only. (R08.7) the d-dimensional generic vector core unpacks d block patterns from the tuple the driver passes. (R08.8) multi_blocks allocates blocks with the shape the kernels write and the driver declares (test x trial components). (R08.9) update() does not skip inputs by object identity.",
+ 'C04': '(R04.G/G11) indices are scaled between levels by 2**(level difference), never by 2*(level difference). (R04.10) the marking mode of refine()/refine_region() defaults to False and is not taken from the evaluation flag self.truncate.',
+ 'C03': '(R03.11 = R04.6) the disparity the level-wise assembly relies on is established by the marking closure started on every level. (R03.12) the level spread assemble_matrix searches is justified by every marking mode refine() admits (T-admissible marking bounds the truncated functions only). (R03.13) function_grandchildren recurses on the children; interlevel rows are assembled regardless of activity; (R03.14) indices and values of a level block come from one COO view; (R03.15) level assemblers receive inputs and parameters. (R03.16 = R05.11) thb_to_hb composes the truncation of every level, no level factor is skipped because the level has no active functions; (R03.17 = R08.3) the options of assemble() reach the hierarchical branch under their own names.',
+ 'C07': "(R07.4) component order of the linearised Hessian; the caller's component index is never applied to the weight column; (R07.5) the fixed coordinate of a boundary function is inserted at position len(x) - axis. (R07.2) views handed out by a method of self through a tuple result are tracked to in-place writes in the caller; (R07.6) the corner weights of every circular arc depend on the angle. (R07.8) boundary() honours a support override in every direction; (R07.9) the Hessian buffer is floating point. (R07.10) a UserFunction passes coordinates to the user callable in the order received on every evaluation route.",
+ 'C08': "(R08.4) update() iterates the variable sequence itself; (R08.6 = R01.7) bounding-box offsets in Gauss-node units of the common node count. (R08.4) the constants array is allocated by the generated __init__ only. (R08.7) the d-dimensional generic vector core unpacks d block patterns from the tuple the driver passes. (R08.8) multi_blocks allocates blocks with the shape the kernels write and the driver declares (test x trial components). (R08.9) update() does not skip inputs by object identity. (R08.11) every block opened by the emitting loops of generate_update is closed in the same iteration; (R08.12) chunk boundaries of the thread-pool paths are computed in integer arithmetic.",
  'C10': "(R10.5) restrict / restrict_rhs / restrict_matrix / extend / complete are compared after inlining with the selection operators they must apply (rows R_free_v, columns R_free). (R10.5) the lifted right-hand side is compared as a matrix-product normal form (order and transposition of the factors); (R10.2) vector Dirichlet values are taken component by component, not by a C-order ravel of the whole array. (R10.6) a scalar Dirichlet value is expanded in a floating dtype; (R10.7) boundary evaluations of the initial-condition helper use the ends of the knot vector's support.",
  'C11': "(R11.1) the matrix handed to the CSR kernels is only converted between storage formats; (R11.2) provenance of the sets each strategy extends; (R11.6) the restricted residual is computed after the last update of the iterate on every path; (R11.8 = R04.4) cache invalidation. (R11.9) backward sweeps reverse (not sort) the index list and the starting residual is not formed in the caller's array; (R11.10) the coarsest-level step corrects the iterate it is given.",
- 'C12': "(R12.G) memoised factorisations are keyed by everything they depend on. (R12.3) no exit between the append of the time and the append of the state. (R12.9) the constant-step fallback receives t0; the scaled error is the RMS of componentwise quotients.",
+ 'C12': "(R12.G) memoised factorisations are keyed by everything they depend on. (R12.3) no exit between the append of the time and the append of the state. (R12.9) the constant-step fallback receives t0; the scaled error is the RMS of componentwise quotients. (R12.2) the clamp of the step factor reaches the step-size update on every path.",
  'C13': "(R13.1) numeric attributes are text-encoded, lossy calls inside hash_key are reported; (R13.3) add() refuses as soon as the memoised hash exists.",
  'C14': "(R14.4) each candidate flip starts from the unflipped grid. (R14.G/G14) a size derived from a container is not cached before the container is compacted in the same method. (R14.5) the flip tuple of a 3D interface is widened correctly for each removed axis (symbolic execution of the widening).",
- 'C15': "(R15.5) the kernels receive the structure's own, unfiltered block pattern; (R15.8) the per-level pattern comes from the support search on every level. (R15.5) the dispatch on the level count is evaluated for L = 1..4; (R15.9) local row numbers refer to the list as passed by the caller. (R15.10) asmatrix passes the shape explicitly; (R15.11) supports of two knot vectors are compared in parameter coordinates.",
- 'C16': "(R16.1) adjoint and transpose traverse the operands in the same order; (R16.4) accumulators are not narrowed to the first operand's dtype; (R16.5) a cyclic axis move is not replaced by an exchange. (R16.3) the flag that admits the square-only Kronecker routine is computed factor by factor; a `continue` of a block-row scan is not a `break` (R16.0). (R16.7) Kronecker work buffers take the promoted dtype; (R16.8) dense Cholesky only under spd; DiagonalOperator accepts a 0-d squeeze.",
- 'C17': "(R17.1) the corrective branch covers info > 0; (R17.7) load vector and integral use one tensor Gauss rule with the common node count. (R17.8) f_physical -- not the presence of a geometry -- selects the evaluation at mapped points; project_L2 takes the Kronecker shortcut only without geometry; (R17.G/G13) a slice bounded by the negated degree needs the degree-0 case. (R17.9 = R09.8) cached quadrature rules are not scaled in place; (R17.10) interpolation solves the collocation system for every degree.",
+ 'C15': "(R15.5) the kernels receive the structure's own, unfiltered block pattern; (R15.8) the per-level pattern comes from the support search on every level. (R15.5) the dispatch on the level count is evaluated for L = 1..4; (R15.9) local row numbers refer to the list as passed by the caller. (R15.10) asmatrix passes the shape explicitly; (R15.11) supports of two knot vectors are compared in parameter coordinates. (R15.14) the column query is the row query of the transposed structure on every path.",
+ 'C16': "(R16.1) adjoint and transpose traverse the operands in the same order; (R16.4) accumulators are not narrowed to the first operand's dtype; (R16.5) a cyclic axis move is not replaced by an exchange. (R16.3) the flag that admits the square-only Kronecker routine is computed factor by factor; a `continue` of a block-row scan is not a `break` (R16.0). (R16.7) Kronecker work buffers take the promoted dtype; (R16.8) dense Cholesky only under spd; DiagonalOperator accepts a 0-d squeeze. (R16.10) in the dense LU branch of make_solver, which matrix is factorised and whether the transposed system is solved are decided by one test.",
+ 'C17': "(R17.1) the corrective branch covers info > 0; (R17.7) load vector and integral use one tensor Gauss rule with the common node count. (R17.8) f_physical -- not the presence of a geometry -- selects the evaluation at mapped points; project_L2 takes the Kronecker shortcut only without geometry; (R17.G/G13) a slice bounded by the negated degree needs the degree-0 case. (R17.9 = R09.8) cached quadrature rules are not scaled in place; (R17.10) interpolation solves the collocation system for every degree. (R17.13 = R04.4) every refinement clears the index caches of the HSpace that project_L2 assembles on; (R17.14 = R09.1) the determinant kernels weighting the load vector equal the Leibniz polynomial.",
  'C18': "(R18.2) tensor.asarray(X) aliases X. (R18.7 = R16.5) mode products put the new axis back by a cyclic move; (R18.8) negation negates exactly one factor of each product. (R18.9) every Kronecker term is a tuple where methods concatenate tuples (constructor normalises or all construction sites pass tuples). (R18.10) a multi-index kept in a list subscripts arrays as a tuple. (R18.11) significance tests use abs; running indices are spliced in the order of the requested axes; (R18.12) squeeze normalises negative axes.",
- 'C19': "(R19.1) the end knots are exact copies of a and b; (R19.3) the vectorised span search is stateless; (R19.5) knot differences come from the knot array. (R19.7) make_knots uses its parameters as passed (no clamp). (R19.6) the mesh is np.unique of the knots; (R19.8) refine keeps repeated new knots; (R19.9) knot-vector equality is symmetric.",
- 'C20': "(R20.5) the rebuild is reached for every ImportError; (R20.6) a process removes only its own scratch directory and creates nothing importable under the cache directory before publication. (R20.5) every creation of a shared directory tolerates a concurrent creator (exist_ok / caught FileExistsError), a preceding exists() test does not count.",
+ 'C19': "(R19.1) the end knots are exact copies of a and b; (R19.3) the vectorised span search is stateless; (R19.5) knot differences come from the knot array. (R19.7) make_knots uses its parameters as passed (no clamp). (R19.6) the mesh is np.unique of the knots; (R19.8) refine keeps repeated new knots; (R19.9) knot-vector equality is symmetric. (R19.2) a merge by np.insert at searchsorted positions is sorted only if the inserted values are.",
+ 'C20': "(R20.5) the rebuild is reached for every ImportError; (R20.6) a process removes only its own scratch directory and creates nothing importable under the cache directory before publication. (R20.5) every creation of a shared directory tolerates a concurrent creator (exist_ok / caught FileExistsError), a preceding exists() test does not count. (R20.8) one build attempt per scratch directory: the build is not repeated in an exception handler.",
 }
 
 props = [json.loads(l) for l in open(os.path.join(HERE, 'properties.jsonl'))]
@@ -64,12 +64,12 @@ for p in props:
                   ' In addition (R%s.0) every statement of the functions this property is anchored in (reference/scope.json) is compared '
                   'with the instance confirmed on the reference tree, modulo commutativity / keyword order / numeric spelling; a statement '
                   'that is exactly one semantic mutation away (swapped operands, arguments or subscripts, changed constant, flipped sign or '
-                  'comparison, +-1 offset, dropped keyword or conjunct, one variable replaced by another) is a violation, any other '
+                  'comparison, +-1 offset, dropped keyword or conjunct, one variable replaced by another or by a literal, two variables exchanged, an exact equality replaced by a default-tolerance test, a dropped target of a multiple assignment, a changed numeric default, a parameter that is no longer read, a new in-place write to a caller\'s argument, an update moved behind the exit it preceded) is a violation, any other '
                   'rewrite gives no verdict; and (R%s.G) the same functions are searched for memoisation and forwarding defect patterns '
                   '(stale value after a memo miss, under-keyed memo, memo not reset by a state writer, rebound option forwarded, '
                   'configuration not inherited by a derived object, error estimate by difference of squares, memo hit by tolerant equality, memo keyed by a '
                   'projection of its inputs, linear instead of dyadic level factor, triangular sum of an asymmetric summand, slice bounded by a '
-                  'negated degree, size cached before its container is rewritten, memo of a method with a flag not keyed by the flag, closure created in a loop that reads the loop variable late).  Before any rule runs, spelling-only differences from the '
+                  'negated degree, size cached before its container is rewritten, memo of a method with a flag not keyed by the flag, closure created in a loop that reads the loop variable late, list changed while iterated, stale value after a caught exception, operand combined with itself, negative index at the first iteration, lookup key built by an order-destroying call, sum used as an all-zero test, setdefault used as a store).  Before any rule runs, spelling-only differences from the '
                   'confirmed reference (renamed locals, new temporaries, equivalent statement forms) are normalised away (sa/alpha.py).'
                   % (pid[1:], pid[1:]) +
                   ' A pass means every enumerated structural obligation is met by /repo as it is now; it is a necessary-condition '
